@@ -477,6 +477,61 @@ theorem tracksWf_of_inv {db : TDb} (h : Inv db) : Spec.tracksWf db = true := by
   rw [fileNameOf_eq, fileTypeOf_eq, h1, h2, h3, h4, h1]
   simp
 
+/-! ### the executable predicate is the invariant (so the theorems start from any table that passes the check) -/
+
+theorem nodup_of_distinctBy {α β} [BEq β] [LawfulBEq β] (f : α → β) (l : List α)
+    (h : Spec.distinctBy f l = true) : (l.map f).Nodup := by
+  induction l with
+  | nil => exact List.nodup_nil
+  | cons a t ih =>
+    unfold Spec.distinctBy at h
+    simp only [Bool.and_eq_true, Bool.not_eq_true', List.any_eq_false] at h
+    simp only [List.map_cons, List.nodup_cons]
+    refine ⟨?_, ih h.2⟩
+    intro hm
+    obtain ⟨b, hb, hfb⟩ := List.mem_map.mp hm
+    have := h.1 b hb
+    simp [hfb] at this
+
+theorem eq_of_nodup_map {α β} (f : α → β) (l : List α) (h : (l.map f).Nodup) {a b : α} (ha : a ∈ l) (hb : b ∈ l)
+    (hab : f a = f b) : a = b := by
+  induction l with
+  | nil => cases ha
+  | cons x t ih =>
+    simp only [List.map_cons, List.nodup_cons, List.mem_map, not_exists, not_and] at h
+    simp only [List.mem_cons] at ha hb
+    rcases ha with rfl | ha <;> rcases hb with rfl | hb
+    · rfl
+    · exact absurd hab.symm (h.1 b hb)
+    · exact absurd hab (h.1 a ha)
+    · exact ih h.2 ha hb
+
+theorem inv_of_tracksWf {db : TDb} (h : Spec.tracksWf db = true) : Inv db := by
+  unfold Spec.tracksWf at h
+  simp only [Bool.and_eq_true, List.all_eq_true, decide_eq_true_eq] at h
+  obtain ⟨⟨⟨hd, hi⟩, hp⟩, hpos⟩ := h
+  have hids := nodup_of_distinctBy _ _ hi
+  have hpaths := nodup_of_distinctBy _ _ hp
+  have hrow : ∀ t ∈ db.rows, t.row.filename = Spec.fileNameOf t.row.path ∧ t.row.fileType = Spec.fileTypeOf t.row.path ∧
+      t.originUuid = db.uuid ∧ t.originId = t.id := by
+    intro t ht
+    have := hd t ht
+    unfold Spec.derivedOk at this
+    simp only [Bool.and_eq_true, beq_iff_eq] at this
+    exact ⟨this.1.1.1, this.1.1.2, this.1.2, this.2⟩
+  refine ⟨⟨hids, ?_, fun t ht => ⟨(hrow t ht).2.2.1, (hrow t ht).2.2.2⟩, hpos⟩, ?_⟩
+  · intro a ha b hb hab
+    have : a = b := eq_of_nodup_map _ _ hpaths ha hb hab
+    rw [this]
+  · intro t ht
+    obtain ⟨h1, h2, _, _⟩ := hrow t ht
+    rw [fileNameOf_eq] at h1
+    rw [fileTypeOf_eq] at h2
+    exact ⟨h1, by rw [h2, h1]⟩
+
+theorem tracksWf_iff_inv (db : TDb) : Spec.tracksWf db = true ↔ Inv db :=
+  ⟨inv_of_tracksWf, tracksWf_of_inv⟩
+
 /-! ### a call that does not return normally leaves the table as it was -/
 
 theorem snd_bind_pure_ok {α β} (m : M α) (b : β) (db : TDb) :
